@@ -162,6 +162,7 @@ class Spec:
     guards: list = field(default_factory=list)       # filled in: source text of dropped raise-guards
     nested_as_call: bool = True    # for a nested def: definition = the nested function itself
     dom: dict = field(default_factory=dict)   # param -> (lo, hi) sampling range for validation
+    arg_of: tuple | None = None    # (target, k): the definition is the k-th positional argument of the call assigned to target
 
 
 PRIMS1 = {
@@ -421,6 +422,8 @@ class Translator:
             return CallG(name, [Var("s")] + targs)
         if kind == "const":
             return Num(name, Fraction(name))
+        if kind == "tuplevars":    # call returning a tuple of (renamed) parameters
+            return Tup([Var(n) for n in name])
         raise TranslationError(f"bad env kind {kind}")
 
     def call(self, node: ast.Call):
@@ -635,8 +638,17 @@ def translate(spec: Spec, structs: dict, tree: ast.Module):
     own = [a.arg for a in node.args.args if a.arg != "self"]
     declared = [n for n, _ in spec.params]
     for p in own:
-        if p not in declared and p not in spec.assume and (spec.first is None):
+        if p not in declared and p not in spec.assume and (spec.first is None) and spec.arg_of is None:
             raise TranslationError(f"{spec.path}: python parameter {p!r} is not declared in the spec")
+    if spec.arg_of is not None:
+        tgt, kk = spec.arg_of
+        cand = [st for st in node.body if tgt in assigned_names(st)]
+        if not cand or not isinstance(cand[0], ast.Assign) or not isinstance(cand[0].value, ast.Call) \
+                or len(cand[0].value.args) <= kk:
+            raise TranslationError(f"{spec.path}: no call argument {kk} in the assignment of {tgt!r}")
+        argnode = cand[0].value.args[kk]
+        ir = tr.expr(argnode)
+        return ir, normalised_digest(argnode), (cand[0].lineno, cand[0].end_lineno), [ast.Return(value=argnode)], node
     stmts = slice_body(node.body, spec.first, spec.last)
     if spec.outputs is not None:
         outs = spec.outputs
